@@ -37,8 +37,10 @@ func (m *mountDst) Mount(ctx context.Context, desc ocispec.Descriptor, fromRepo 
 	nm := m.W.D.Nodes[id].Name
 	if vs.ChooseAt(2, vs.KInput, "mount("+nm+","+fromRepo+")") == 0 {
 		// mounted: the registry links the blob, nothing is read from the source
-		*m.events = append(*m.events, "mounted-by-registry:"+nm+":"+fromRepo)
-		m.mounted[id]++
+		m.W.Do(func() {
+			*m.events = append(*m.events, "mounted-by-registry:"+nm+":"+fromRepo)
+			m.mounted[id]++
+		})
 		return m.Inner.Push(ctx, desc, bytes.NewReader(m.W.D.Nodes[id].Bytes))
 	}
 	rc, err := getContent()
@@ -46,7 +48,7 @@ func (m *mountDst) Mount(ctx context.Context, desc ocispec.Descriptor, fromRepo 
 		return err
 	}
 	defer rc.Close()
-	*m.events = append(*m.events, "fallback:"+nm+":"+fromRepo)
+	m.W.Do(func() { *m.events = append(*m.events, "fallback:"+nm+":"+fromRepo) })
 	return m.Dst.Push(ctx, desc, rc)
 }
 
@@ -94,7 +96,7 @@ func mountRun(c *driver.Ctx, d *DAG, ncand int) (func(), func(*vs.Result) *drive
 	cb := func(kind string) func(context.Context, ocispec.Descriptor) error {
 		return func(_ context.Context, desc ocispec.Descriptor) error {
 			vs.Pt(kind)
-			w.Trace = append(w.Trace, kind+":"+d.Nodes[d.Find(desc)].Name)
+			w.Log(kind + ":" + d.Nodes[d.Find(desc)].Name)
 			return nil
 		}
 	}
